@@ -211,9 +211,13 @@ class Categorize(Factory, Container):
             if not isinstance(q, (basestring, bool)):
                 raise TypeError(f"function return value ({q}) must be a string or bool")
 
-            if q not in self.bins:
-                self.bins[q] = self.value.zero()
-            self.bins[q].fill(datum, weight)
+            if q in self.bins:
+                self.bins[q].fill(datum, weight)
+            else:
+                # register the new bin only once its fill has succeeded (for rollback)
+                sub = self.value.zero()
+                sub.fill(datum, weight)
+                self.bins[q] = sub
 
             # no possibility of exception from here on out (for rollback)
             self.entries += weight
